@@ -19,5 +19,7 @@ func moreGens() []struct {
 		{"GenConsts.v", genConsts},
 		{"GenReticular.v", genReticular},
 		{"GenCli.v", genCli},
+		{"GenSolver.v", genSolver},
+		{"GenAccept.v", genAccept},
 	}, extraGens...)
 }
